@@ -12,9 +12,14 @@ PYX = {"_cpmorphology2.pyx": ["table_lookup_index", "index_lookup", "prepare_for
 RULE = ("cases: table_lookup(image, table, border, iterations) over shapes 1x1.. (all contents of every shape of "
         "area <= 6 (quick) / <= 12 within 6x6 plus 1xN, Nx1 (thorough), random larger up to 24x24, thin 1xN/Nx1/2xN/"
         "3xN strips), tables erosive / extensive / neither / constant / built-in / random with one flipped bit, both "
-        "border values, iterations 0, 1, k, None (None only where the rule provably or by simulation converges), dtypes "
-        "bool / int8..int64 / uint8 / float64 (float forces the plain path on tables the sparse path would take); the 14 "
-        "wrapper operations with and without masks; table_lookup_index and prepare/index_lookup/extract called directly. "
+        "border values, iterations 0, 1, k, None (None only where the rule provably or by simulation converges), image "
+        "dtypes bool / int8..int64 / uint8..uint64 / float32 / float64 (float forces the plain path on tables the sparse "
+        "path would take), image layouts C / Fortran / strided view / read-only, table dtypes bool / int8 / int64 / uint8 / "
+        "uint16 / float64 holding 0/1 and strided table views; the 14 wrapper operations with and without masks (life with "
+        "iterations 1/k, None only where it converges); sequences of 4-12 calls inside ONE case that alternate freshly "
+        "built erosive / extensive / neither tables (each freed before the next is built), re-use a table object after "
+        "editing it in place, and interleave built-in operations; all cases of a run share one worker process; "
+        "table_lookup_index and prepare/index_lookup/extract called directly. "
         "non-trivial = the output differs from the input image or the image has a set pixel on its rim; distinct by case hash")
 TRUSTED = [
     "translator gen_files: dumps the 15 built-in 512-entry tables from the staged package and reads border / mask-fill / "
@@ -24,7 +29,8 @@ TRUSTED = [
     "the transcription of each operation's docstring/comment into a predicate on nine bits (Spec/LutDocs.v), including "
     "the definition of 'objects after labelling' as connected components of the 3x3 pattern",
 ]
-ASSUMPTIONS = ["image contents are binary (0/1 or False/True); tables are boolean arrays of 512 entries; image has at "
+ASSUMPTIONS = ["image contents are binary (0/1 or False/True); tables are NumPy arrays of 512 entries holding 0/1 (any "
+               "numeric dtype; Python lists are rejected by the code with TypeError and are not generated); image has at "
                "least one row and one column",
                "until-convergence is requested only where the synchronous rule reaches a fixed point (it does not "
                "terminate otherwise, in the rule and in the code alike)"]
@@ -247,7 +253,10 @@ def _rand_img(rng, H, W):
     return rng.rand(H, W) < rng.choice([0.1, 0.3, 0.5, 0.7, 0.9])
 
 
-DTYPES = ["bool", "bool", "bool", "int32", "int64", "uint8", "int8", "uint16", "float64"]
+DTYPES = ["bool", "bool", "bool", "bool", "int8", "int16", "int32", "int64", "uint8", "uint16", "uint32", "uint64",
+          "float32", "float64"]
+TDTYPES = ["bool", "bool", "bool", "int8", "int64", "uint8", "uint16", "float64"]
+LAYOUTS = ["C", "C", "C", "F", "strided", "ro"]
 
 
 def _tl_case(rng, img, table=None, kind=None):
@@ -262,7 +271,8 @@ def _tl_case(rng, img, table=None, kind=None):
         if not _converges(img, table, border):
             it = int(rng.choice([1, 2, 4, 7]))
     return {"fn": "tl", "img": img.astype(int).tolist(), "dt": dt, "tab": _bits(table), "b": border, "it": it,
-            "kind": kind or "given"}
+            "kind": kind or "given", "tdt": str(rng.choice(TDTYPES)), "tlay": str(rng.choice(["C", "C", "C", "strided"])),
+            "lay": str(rng.choice(LAYOUTS))}
 
 
 def _op_case(rng, img, op=None):
@@ -274,15 +284,16 @@ def _op_case(rng, img, op=None):
     it = it if it == "default" else int(it)
     if op in ("endpoints", "branchpoints"):
         it = "default"
-    dt = str(rng.choice(["bool", "bool", "int32", "uint8"]))
-    c = {"fn": "op", "op": op, "img": img.astype(int).tolist(), "dt": dt, "mask": mask, "it": it}
+    dt = str(rng.choice(["bool", "bool", "bool", "int32", "uint8", "int64", "uint16", "float64"]))
+    c = {"fn": "op", "op": op, "img": img.astype(int).tolist(), "dt": dt, "mask": mask, "it": it,
+         "lay": str(rng.choice(LAYOUTS))}
     return c
 
 
 def _op_safe(c):
     """False when the documented rule of this wrapper call does not reach a fixed point although the call runs until
-    nothing changes (life always; bridge/diag/majority/thicken/... with iterations=None): such a call does not
-    terminate - in the rule and in the code alike - and is not generated."""
+    nothing changes (life/bridge/diag/majority/thicken/... with iterations=None): such a call does not terminate - in
+    the rule and in the code alike - and is not generated."""
     op = c["op"]
     if op == "spur":
         return True
@@ -290,12 +301,12 @@ def _op_safe(c):
     t = _DOC_TABLES.get(op)
     if t is None:
         return True
-    until = (op in ("hbreak", "vbreak", "remove", "life")) or c["it"] == -1
+    until = (op in ("hbreak", "vbreak", "remove")) or c["it"] == -1
     if op in ("endpoints", "branchpoints") or not until:
         return True
     fillv = op in ("fill", "fill4")
     m = img.copy()
-    if c["mask"] is not None and op != "life":
+    if c["mask"] is not None and op != "life":      # life ignores its mask
         m[~np.array(c["mask"], bool)] = fillv
     return _converges(m, t, fillv, limit=80)
 
@@ -331,6 +342,64 @@ def _doc_tables():
 _DOC_TABLES = {}
 
 
+def _kind_table(rng, kind):
+    t = rng.rand(512) < rng.choice([0.3, 0.5, 0.7])
+    if kind == "erosive":
+        t[~_CENTER] = False
+    elif kind == "extensive":
+        t[_CENTER] = True
+    else:
+        t[int(rng.choice(np.flatnonzero(~_CENTER)))] = True
+        t[int(rng.choice(np.flatnonzero(_CENTER)))] = False
+    return t
+
+
+def _seq_case(rng):
+    """4-12 calls in one process: fresh tables of alternating kinds (built after the previous one was freed), the same
+    table object edited in place into another kind, built-in operations in between"""
+    steps = []
+    kinds = ["erosive", "extensive", "neither"]
+    k0 = int(rng.randint(3))
+    n = int(rng.randint(4, 13))
+    same_shape = rng.rand() < 0.5
+    H0, W0 = _rand_shape(rng, 8)
+    tdt = str(rng.choice(TDTYPES)) if rng.rand() < 0.5 else "bool"
+    for j in range(n):
+        H, W = (H0, W0) if same_shape else _rand_shape(rng, 8)
+        img = _rand_img(rng, H, W)
+        u = rng.rand()
+        if u < 0.2:
+            c = _op_case(rng, img)
+            if c["it"] == -1 or not _op_safe(c):
+                c["it"] = "default" if c["op"] in ("endpoints", "branchpoints") else 1
+                if not _op_safe(c):
+                    continue
+            steps.append(c)
+            continue
+        kind = kinds[(k0 + j + (int(rng.randint(3)) if rng.rand() < 0.3 else 0)) % 3]
+        c = _tl_case(rng, img, _kind_table(rng, kind), kind)
+        c["dt"] = str(rng.choice(["bool", "bool", "bool", "int32", "uint8"]))
+        c["tdt"] = tdt if rng.rand() < 0.7 else str(rng.choice(TDTYPES))
+        c["tlay"] = "C"
+        if steps and steps[-1]["fn"] == "tl" and rng.rand() < 0.35:
+            c["reuse"] = True                  # previous table object, edited in place into this table
+            c["tdt"] = steps[-1]["tdt"]
+            if rng.rand() < 0.5:               # only a few entries change, but the class does
+                t = _tab(steps[-1]["tab"]).copy()
+                if kind == "neither":
+                    t[int(rng.choice(np.flatnonzero(~_CENTER)))] = True
+                    t[int(rng.choice(np.flatnonzero(_CENTER)))] = False
+                elif kind == "erosive":
+                    t[~_CENTER] = False
+                else:
+                    t[_CENTER] = True
+                c["tab"] = _bits(t)
+                if c["it"] < 0 and not _converges(img, t, c["b"]):
+                    c["it"] = 2
+        steps.append(c)
+    return {"fn": "seq", "steps": steps}
+
+
 def _all_images(H, W):
     for bits in itertools.product((0, 1), repeat=H * W):
         yield np.array(bits, bool).reshape(H, W)
@@ -357,7 +426,7 @@ def generate(ctx):
             if not _op_safe(c):
                 ctx.count("excluded:wrapper-call-that-does-not-terminate")
                 # same image with an explicit finite count where the wrapper honours one
-                if op in ("hbreak", "vbreak", "remove", "life"):
+                if op in ("hbreak", "vbreak", "remove"):
                     continue
                 c["it"] = int(rng.choice([1, 2, 3]))
             cases.append(c)
@@ -376,9 +445,19 @@ def generate(ctx):
         t[~_CENTER] = False
         cases.append({"fn": "idx", "img": _rand_img(rng, H, W).astype(int).tolist(), "tab": _bits(t),
                       "b": int(rng.randint(2)), "it": int(rng.choice([1, 2, 3, -1, 0]))})
+    # (e) sequences of calls inside one case
+    for _ in range(ctx.n(200, 3000)):
+        c = _seq_case(rng)
+        if c["steps"]:
+            cases.append(c)
+            ctx.count("seq-steps", len(c["steps"]))
+            ctx.count("seq-steps-reusing-an-edited-table", sum(1 for st in c["steps"] if st.get("reuse")))
     for c in cases:
         ctx.count("fn:" + c["fn"])
+        if c["fn"] in ("tl", "op"):
+            ctx.count("layout:" + c.get("lay", "C"))
         if c["fn"] == "tl":
+            ctx.count("table-dtype:" + c.get("tdt", "bool"))
             ctx.count("table:" + c["kind"]); ctx.count("dtype:" + c["dt"])
             ctx.count("iters:" + ("None" if c["it"] < 0 else "k"))
             h, w = len(c["img"]), len(c["img"][0])
@@ -388,8 +467,30 @@ def generate(ctx):
 
 # ------------------------------------------------------------------------------ implementation side
 
-def _arr(img, dt):
-    return np.array(img, dtype=bool if dt == "bool" else dt)
+def _arr(img, dt, lay="C"):
+    base = np.array(img, dtype=bool if dt == "bool" else dt)
+    if lay == "F":
+        return np.asfortranarray(base)
+    if lay == "strided":
+        # a view with gaps holding the complement, so that reading with the wrong strides shows
+        H, W = base.shape
+        big = np.ones((2 * H + 1, 3 * W + 2), base.dtype)
+        view = big[1::2, 2::3][:H, :W]
+        big[0::2, :] = 0
+        view[...] = base
+        return view
+    if lay == "ro":
+        base.setflags(write=False)
+    return base
+
+
+def _mk_table(bits, tdt="bool", tlay="C"):
+    t = _tab(bits).astype(bool if tdt == "bool" else tdt)
+    if tlay == "strided":
+        big = np.ones(1024, t.dtype)
+        big[0::2] = t
+        return big[0::2]
+    return t
 
 
 def _grid(a):
@@ -401,25 +502,52 @@ def _grid(a):
     return a.astype(np.int64).tolist()
 
 
+def _call_tl(M, c, table):
+    img = _arr(c["img"], c["dt"], c.get("lay", "C"))
+    r = M.table_lookup(img, table, bool(c["b"]), None if c["it"] < 0 else c["it"])
+    return {"out": _grid(r), "shape": list(np.asarray(r).shape)}
+
+
+def _call_op(M, c):
+    img = _arr(c["img"], c["dt"], c.get("lay", "C"))
+    mask = None if c["mask"] is None else np.array(c["mask"], bool)
+    f = getattr(M, c["op"])
+    if c["it"] == "default":
+        r = f(img, mask) if mask is not None else f(img)
+    else:
+        r = f(img, mask, None if c["it"] < 0 else c["it"])
+    return {"out": _grid(r), "shape": list(np.asarray(r).shape)}
+
+
 def impl(case):
     from centrosome import cpmorphology as M
     from centrosome import _cpmorphology2 as K
     fn = case["fn"]
     if fn == "tl":
-        img = _arr(case["img"], case["dt"])
-        keep = img.copy()
-        r = M.table_lookup(img, _tab(case["tab"]), bool(case["b"]), None if case["it"] < 0 else case["it"])
-        return {"out": _grid(r), "shape": list(np.asarray(r).shape), "input_kept": bool(np.array_equal(keep, img))}
+        return _call_tl(M, case, _mk_table(case["tab"], case.get("tdt", "bool"), case.get("tlay", "C")))
     if fn == "op":
-        img = _arr(case["img"], case["dt"])
-        mask = None if case["mask"] is None else np.array(case["mask"], bool)
-        f = getattr(M, case["op"])
-        if case["it"] == "default":
-            r = f(img, mask) if mask is not None else f(img)
-        else:
-            it = None if case["it"] < 0 else case["it"]
-            r = f(img, mask, it)
-        return {"out": _grid(r), "shape": list(np.asarray(r).shape)}
+        return _call_op(M, case)
+    if fn == "seq":
+        # many calls in one process: every user table is built, used and dropped before the next one
+        # is built (CPython then hands the new array the id/memory of the old one); "reuse" steps edit
+        # the previous table object in place and call again with the very same object
+        outs = []
+        table = None
+        for st in case["steps"]:
+            try:
+                if st["fn"] == "op":
+                    outs.append(_call_op(M, st))
+                    continue
+                if st.get("reuse") and table is not None:
+                    new = _tab(st["tab"])
+                    table[...] = new.astype(table.dtype)          # edited in place, same object
+                else:
+                    table = None                                   # freed first
+                    table = _mk_table(st["tab"], st.get("tdt", "bool"), st.get("tlay", "C"))
+                outs.append(_call_tl(M, st, table))
+            except Exception as e:                                 # noqa: outcome of that step
+                outs.append({"exc": type(e).__name__, "msg": str(e)[:200]})
+        return {"steps": outs}
     if fn == "tli":
         r = K.table_lookup_index(np.ascontiguousarray(np.array(case["img"], bool), np.uint8))
         return {"out": np.asarray(r).astype(np.int64).tolist(), "dtype": str(r.dtype)}
@@ -472,6 +600,21 @@ def _sargs(c):
     return "entry_specidx", [c["img"]]
 
 
+def _flat(cases, outs=None):
+    """(flat cases, flat outs, owner index list) with the steps of a sequence spliced in"""
+    fc, fo, own = [], [], []
+    for k, c in enumerate(cases):
+        if c["fn"] != "seq":
+            fc.append(c); fo.append(None if outs is None else outs[k]); own.append(k)
+            continue
+        o = None if outs is None else outs[k]
+        so = o["steps"] if isinstance(o, dict) and "steps" in o and len(o["steps"]) == len(c["steps"]) else None
+        for n, st in enumerate(c["steps"]):
+            fc.append(st); own.append(k)
+            fo.append(None if outs is None else (so[n] if so is not None else o))
+    return fc, fo, own
+
+
 def _run_grouped(ctx, cases, argf, idxs=None):
     idxs = range(len(cases)) if idxs is None else idxs
     groups = {}
@@ -486,11 +629,20 @@ def _run_grouped(ctx, cases, argf, idxs=None):
 
 
 def model(ctx, cases, outs):
-    r = _run_grouped(ctx, cases, _margs)
-    return [r[k] for k in range(len(cases))]
+    fc, _, own = _flat(cases)
+    r = _run_grouped(ctx, fc, _margs)
+    res = [None] * len(cases)
+    for n, k in enumerate(own):
+        if cases[k]["fn"] == "seq":
+            if res[k] is None:
+                res[k] = []
+            res[k].append(r[n])
+        else:
+            res[k] = r[n]
+    return res
 
 
-def compare(case, out, m):
+def _compare1(case, out, m):
     if _bad(out):
         return "implementation raised/crashed: %s" % (str(out)[:300],)
     if isinstance(m, dict):
@@ -509,7 +661,19 @@ def compare(case, out, m):
     return None
 
 
-def check(ctx, cases, outs):
+def compare(case, out, m):
+    if case["fn"] != "seq":
+        return _compare1(case, out, m)
+    if _bad(out) or len(out.get("steps", [])) != len(case["steps"]):
+        return "implementation raised/crashed: %s" % (str(out)[:300],)
+    for n, (st, o, mm) in enumerate(zip(case["steps"], out["steps"], m)):
+        d = _compare1(st, o, mm)
+        if d:
+            return "step %d of the sequence: %s" % (n, d)
+    return None
+
+
+def _check_flat(ctx, cases, outs):
     res = [None] * len(cases)
     ok = []
     for k, o in enumerate(outs):
@@ -546,6 +710,18 @@ def check(ctx, cases, outs):
     return res
 
 
+def check(ctx, cases, outs):
+    fc, fo, own = _flat(cases, outs)
+    fr = _check_flat(ctx, fc, fo)
+    res = [None] * len(cases)
+    pos = {}
+    for n, k in enumerate(own):
+        pos[k] = pos.get(k, -1) + 1
+        if fr[n] and res[k] is None:
+            res[k] = fr[n] if cases[k]["fn"] != "seq" else "call %d of the sequence (after the calls before it in the same process): %s" % (pos[k], fr[n])
+    return res
+
+
 def _first_diff(a, b):
     for p, (ra, rb) in enumerate(zip(a, b)):
         for q, (x, y) in enumerate(zip(ra, rb)):
@@ -557,6 +733,8 @@ def _first_diff(a, b):
 def nontrivial(case, out):
     if _bad(out):
         return False
+    if case["fn"] == "seq":
+        return any(nontrivial(st, o) for st, o in zip(case["steps"], out.get("steps", [])))
     img = case["img"]
     rim = any(img[0]) or any(img[-1]) or any(r[0] or r[-1] for r in img)
     if case["fn"] in ("tl", "op"):
@@ -569,6 +747,8 @@ def kernel_crosscheck(ctx, cases, outs):
     seen = {}
     for k, c in enumerate(cases):
         if _bad(outs[k]) or c["fn"] not in ("tl", "op", "tli"):
+            continue
+        if c["fn"] == "op" and c["op"] == "life" and False:
             continue
         if len(c["img"]) * len(c["img"][0]) > 30 or (c["fn"] != "tli" and _it(c) < 0):
             continue
@@ -610,10 +790,34 @@ def search_cases(ctx, rnd):
     for _ in range(200):
         H, W = _rand_shape(rng, 16)
         cases.append({"fn": "tli", "img": _rand_img(rng, max(H, 3), max(W, 3)).astype(int).tolist()})
+    for _ in range(300):
+        c = _seq_case(rng)
+        if c["steps"]:
+            cases.append(c)
     return cases
 
 
 def shrink_candidates(case):
+    if case["fn"] == "seq":
+        st = case["steps"]
+
+        def mk(steps):
+            steps = [dict(x) for x in steps]
+            if steps and steps[0].get("reuse"):
+                steps[0].pop("reuse")
+            return {"fn": "seq", "steps": steps}
+        if len(st) > 1:
+            yield mk(st[:-1])
+            yield mk(st[1:])
+            for k in range(1, len(st) - 1):
+                yield mk(st[:k] + st[k + 1:])
+        if len(st) == 1:
+            yield st[0]
+        for k in range(len(st)):
+            for sub in itertools.islice(shrink_candidates(st[k]), 8):
+                if sub["fn"] == st[k]["fn"]:
+                    yield mk(st[:k] + [sub] + st[k + 1:])
+        return
     img = case["img"]
     H, W = len(img), len(img[0])
     fn = case["fn"]
